@@ -40,10 +40,12 @@ contract(M + "Variable.get_bounds", returns={"when": "kids(self)", "then": "tupl
                        "else": [("own-pair", "result[0] is cbound_lo(self, 0) and result[1] is cbound_hi(self, 0)")]},
          ensures=[("pure", "heap_unchanged()")], properties=[])
 
-contract(M + "Task.validate_objective_weights", returns="Task", verify=False, allocates=False,
-         assumed_reason="pydantic model validator written with numpy (np.all(np.array(w) >= 0)): bounded law campaign (C06 scenarios)",
+HAS_NEG_DEF = ("implies(self.objective_weights is not None, has_negative(self.objective_weights) == "
+               "any(self.objective_weights[i] < 0 for i in range(len(self.objective_weights))))")
+contract(M + "Task.validate_objective_weights", returns="Task",
+         entry_invariants=[HAS_NEG_DEF],     # the definition of the spec predicate has_negative (opaque everywhere else)
          raises={"ValueError": "self.objective_weights is not None and has_negative(self.objective_weights)"},
-         ensures=[("same", "result is self"), ("pure", "heap_unchanged()")], properties=[])
+         ensures=[("same", "result is self"), ("pure", "heap_unchanged()")], properties=["C06"])
 
 contract(M + "Task.__init__",
          params=dict(kwargs='{"variables": "list[Variable]", "minmax?": "TaskType", "seed?": "opt[int]", "objective_weights?": "opt[list[float]]"}'),
@@ -235,3 +237,106 @@ for cls_, size_inv in (("ContinuousMultiVariable", "len(self.lower_bounds) == vs
     contract(M + cls_ + ".size", returns="int", entry_invariants=COMP + [size_inv, "vsize(self) >= 1"],
              ensures=[("size", "result == vsize(self) and result >= 1")], properties=["C14"])
     contract(M + cls_ + ".has_children", returns="bool", entry_invariants=COMP, ensures=[("kids", "result == kids(self)")], properties=["C14"])
+
+# ---- randomize / get_bounds / decode of the composite classes refine the abstract contract child-wise (C13, C14) ---------------
+for cls_ in ("ContinuousMultiVariable", "DiscreteMultiVariable", "MultiObjectiveVariable", "BinaryVariable"):
+    contract(M + cls_ + ".randomize", returns="list[val]", entry_invariants=COMP, assigns=["rng"], hints=["eager-inst"],
+             ensures=[("fresh", "fresh(result)"), ("one-per-child", "len(result) == vsize(self)"),
+                      ("every-draw-in-its-child's-domain", "all(Dom(child(self, r), result[r]) and not isnanv(result[r]) for r in range(vsize(self)))"),
+                      ("pure", "heap_unchanged()")],
+             properties=["C13", "C14", "C01"])
+
+# get_bounds of the two continuous composites: the declared lists themselves, one pair per coordinate; cbound_lo / cbound_hi(v, r)
+# *are* the r-th entries of the declared lists (object invariant bounds_wf: definitional for these two classes)
+BND_WF = ["len(self.lower_bounds) == vsize(self) and len(self.upper_bounds) == vsize(self)",
+          "all(fv(self.lower_bounds[r]) is cbound_lo(self, r) and fv(self.upper_bounds[r]) is cbound_hi(self, r) for r in range(vsize(self)))"]
+for cls_ in ("ContinuousMultiVariable", "MultiObjectiveVariable"):
+    contract(M + cls_ + ".get_bounds", returns="tuple[list[float], list[float]]", entry_invariants=COMP + BND_WF,
+             ensures=[("lower-first-upper-second", "result[0] is self.lower_bounds and result[1] is self.upper_bounds"),
+                      ("one-pair-per-coordinate", "len(result[0]) == vsize(self) and len(result[1]) == vsize(self)"),
+                      ("own-coordinate-bounds", "all(fv(result[0][r]) is cbound_lo(self, r) and fv(result[1][r]) is cbound_hi(self, r) for r in range(vsize(self)))"),
+                      ("pure", "heap_unchanged()")],
+             properties=["C14", "C13"])
+
+# decode: a leaf decodes its own value (abstract: Dec(var, value), a function of the variable and the value); a composite decodes
+# its slice child-wise, child r with entry r (C13 "decode of a corrected value", C14 "that variable's decoded slice")
+contract(M + "Variable.decode", params=dict(value="any"),
+         returns={"when": "kids(self)", "then": "list[val]", "else": "val"}, verify=False, allocates=True,
+         arg_shape_when={"then": {"value": ["list", "nd"]}, "else": {"value": ["val", "int", "float"]}},
+         requires_when={"then": [("a-composite-gets-a-slice-of-its-size", "len(value) >= vsize(self)")]},
+         assumed_reason="abstract method; the leaf classes decode by identity (ContinuousVariable.decode, VC) or by table look-up "
+                        "(DiscreteVariable / PermutationVariable: bounded law campaign); the four composites refine the "
+                        "child-wise clause (VCs below)",
+         ensures_when={"then": [("child-wise", "fresh(result) and len(result) == vsize(self) and "
+                                               "all(result[r] is Dec(child(self, r), value[r]) for r in range(vsize(self)))")],
+                       "else": [("function-of-the-value", "result is Dec(self, value)")]},
+         ensures=[("pure", "heap_unchanged()")], properties=[])
+for cls_ in ("ContinuousMultiVariable", "DiscreteMultiVariable", "MultiObjectiveVariable", "BinaryVariable"):
+    contract(M + cls_ + ".decode", params=dict(value="list[val]"), returns="list[val]", entry_invariants=COMP, hints=["eager-inst"],
+             cases=[{"value": "list[val]"}, {"value": "nd[val]"}],
+             requires=["len(value) >= len(self._children)"],
+             ensures=[("fresh", "fresh(result)"), ("one-per-child", "len(result) == len(self._children)"),
+                      ("child-wise", "all(result[i] is Dec(self._children[i], value[i]) for i in range(len(self._children)))"),
+                      ("argument-untouched", "unchanged(value)"), ("pure", "heap_unchanged()")],
+             properties=["C13", "C14"])
+
+# validate_bounds of the two continuous composites (C13 / C06: length-mismatched, inverted or equal bounds are rejected)
+for cls_ in ("ContinuousMultiVariable", "MultiObjectiveVariable"):
+    contract(M + cls_ + ".validate_bounds", returns=cls_,
+             raises={"ValueError": "len(self.lower_bounds) != len(self.upper_bounds) or "
+                                   "any(self.upper_bounds[r] <= self.lower_bounds[r] for r in range(len(self.lower_bounds)))"},
+             ensures=[("returns-self", "result is self"), ("pure", "heap_unchanged()")],
+             properties=["C13", "C06"])
+
+# transform_solution (C14 last clause, C02 "equivalently"): one entry per declared variable, in declaration order, keyed by its
+# name, holding the decoded slice [off(j), off(j) + size(j)) of the position. The returned dict is represented by its insertion
+# log (dkeys / dvals); with pairwise distinct names the log *is* the dict's item list.
+contract(M + "Task.transform_solution", params=dict(x="list[val]"), cases=[{"x": "list[val]"}, {"x": "nd[val]"}],
+         entry_invariants=TASK_INV, locals=dict(solution="dlog[val]"),
+         requires=["len(x) >= " + DIM],
+         invariants={"loop1": ["counter == off(self, loop1_i)", "loop1_seq is self.variables",
+                               "len(dkeys(solution)) == loop1_i and len(dvals(solution)) == loop1_i",
+                               "all(dkeys(solution)[j] == self.variables[j].name for j in range(loop1_i))",
+                               "all(implies(not kids(self.variables[j]), dvals(solution)[j] is Dec(self.variables[j], x[off(self, j)]))"
+                               " for j in range(loop1_i))",
+                               "all(implies(kids(self.variables[j]), isboxl(dvals(solution)[j]) and allocated(unboxl(dvals(solution)[j])) and"
+                               " unboxl(dvals(solution)[j]) is not dvals(solution) and"
+                               " len(unboxl(dvals(solution)[j])) == vsize(self.variables[j])) for j in range(loop1_i))",
+                               "all(implies(kids(self.variables[j]), all(unboxl(dvals(solution)[j])[r] is"
+                               " Dec(child(self.variables[j], r), x[off(self, j) + r]) for r in range(vsize(self.variables[j]))))"
+                               " for j in range(loop1_i))"]},
+         ensures=[("one-entry-per-declared-variable", "len(dkeys(result)) == len(self.variables) and len(dvals(result)) == len(self.variables)"),
+                  ("keyed-by-name-in-declaration-order", "all(dkeys(result)[j] == self.variables[j].name for j in range(len(self.variables)))"),
+                  ("a-leaf-decodes-its-own-coordinate", "all(implies(not kids(self.variables[j]), dvals(result)[j] is"
+                                                        " Dec(self.variables[j], x[off(self, j)])) for j in range(len(self.variables)))"),
+                  ("a-composite-decodes-a-list-of-its-size", "all(implies(kids(self.variables[j]), isboxl(dvals(result)[j]) and"
+                                                             " len(unboxl(dvals(result)[j])) == vsize(self.variables[j]))"
+                                                             " for j in range(len(self.variables)))"),
+                  ("a-composite-decodes-its-own-slice-child-wise",
+                   "all(implies(kids(self.variables[j]), all(unboxl(dvals(result)[j])[r] is"
+                   " Dec(child(self.variables[j], r), x[off(self, j) + r]) for r in range(vsize(self.variables[j]))))"
+                   " for j in range(len(self.variables)))"),
+                  ("position-untouched", "unchanged(x)"), ("pure", "heap_unchanged()")],
+         properties=["C14", "C02"])
+
+# ---- constructors of two composites: one leaf child per declared coordinate (the part of var_wf a VC can state), C13 / C14 -----
+contract(M + "BinaryVariable.__init__", params=dict(kwargs='{"name": "str", "n_vars": "int"}'),
+         raises={"ValueError": "kwargs['n_vars'] <= 0"},
+         assigns=["self.name", "self.n_vars", "self._children"],
+         ensures=[("size-kept", "self.n_vars == kwargs['n_vars']"),
+                  ("one-child-per-bit", "fresh(self._children) and len(self._children) == self.n_vars"),
+                  ("every-child-is-a-fresh-two-choice-variable", "all(fresh(self._children[i]) and len(self._children[i].choices) == 2"
+                                                                 " for i in range(self.n_vars))")],
+         properties=["C13", "C14"])
+for cls_ in ("ContinuousMultiVariable", "MultiObjectiveVariable"):
+    contract(M + cls_ + ".__init__", params=dict(kwargs='{"name": "str", "lower_bounds": "list[float]", "upper_bounds": "list[float]"}'),
+             lets={"LB0": "kwargs['lower_bounds']", "UB0": "kwargs['upper_bounds']"},
+             raises={"ValueError": "len(LB0) != len(UB0) or any(UB0[r] <= LB0[r] for r in range(len(LB0)))"},
+             assigns=["self.name", "self.lower_bounds", "self.upper_bounds", "self._children"],
+             ensures=[("bounds-kept", "len(self.lower_bounds) == len(LB0) and len(self.upper_bounds) == len(UB0) and"
+                                      " all(self.lower_bounds[r] == LB0[r] and self.upper_bounds[r] == UB0[r] for r in range(len(LB0)))"),
+                      ("one-child-per-coordinate", "fresh(self._children) and len(self._children) == len(LB0)"),
+                      ("child-r-has-the-bounds-of-coordinate-r", "all(fresh(self._children[r]) and self._children[r].lower_bound == LB0[r] and"
+                                                                 " self._children[r].upper_bound == UB0[r] for r in range(len(LB0)))"),
+                      ("caller-lists-untouched", "unchanged(LB0) and unchanged(UB0)")],
+             properties=["C13", "C14"])
